@@ -16,6 +16,7 @@ cd /verif
 echo "seed $NAME: tests='$TESTS' demo_clean=$CLEAN demo_mutated=$MUT"
 for c in $ID "$@"; do
   out=$(SPAKE2_VERIF_TREE=$W VERIF_EVIDENCE_DIR=/tmp/ev_$NAME ./run $c quick 2>&1); rc=$?
+  echo "$out" > /tmp/evalout_${NAME}_$c.log
   line=$(echo "$out" | grep -E "^$c " | tail -1)
   nv=$(echo "$out" | grep -c "^VIOLATION")
   first=$(echo "$out" | grep -A1 "^VIOLATION" | grep "what:" | head -1 | cut -c1-260)
